@@ -331,6 +331,9 @@ func dbTables(repo string) (string, error) {
 	fmt.Fprintf(&b, "Definition addcol_post : post_kind := %s.\n", addColPost(pf.fset, fns["writeModifySQLForATable"]))
 	fmt.Fprintf(&b, "Definition column_text_shape : list string := [%s].\n", strings.Join(columnTextShape(pf.fset, fns["writeCreateSQLForAColumn"], fns["addConstraints"]), "; "))
 	fmt.Fprintf(&b, "Definition mod_apps_shape : list string := [%s].\n", strings.Join(modAppsShape(vf.fset, fns["ProcessModSysls"]), "; "))
+	fmt.Fprintf(&b, "Definition mod_table_shape : list string := [%s].\n", strings.Join(modTableShape(pf.fset, fns["writeModifySQLForATable"]), "; "))
+	fmt.Fprintf(&b, "Definition write_mode : write_kind := %s.\n", writeKind(uf.fset, fns["GenerateFromSQLMap"], fns, 0))
+	fmt.Fprintf(&b, "Definition write_file_shape : list string := [%s].\n", strings.Join(modTableShape(uf.fset, fns["GenerateFromSQLMap"]), "; "))
 	return b.String(), nil
 }
 
@@ -629,6 +632,69 @@ func modAppsShape(fset *token.FileSet, fd *ast.FuncDecl) []string {
 		}
 	}
 	return out
+}
+
+// modTableShape: the statements of writeModifySQLForATable, whole: the loop over the old column names (dropped columns,
+// their key flags), the loop over the new column names, and the tail - DROP CONSTRAINT of the key when it existed and
+// changed, the DROP COLUMN statements, ADD CONSTRAINT .. PRIMARY KEY when it changed and a key column is left
+func modTableShape(fset *token.FileSet, fd *ast.FuncDecl) []string {
+	if fd == nil || fd.Body == nil {
+		return []string{coqStr("?")}
+	}
+	var out []string
+	for _, st := range fd.Body.List {
+		out = append(out, coqStr(dbText(fset, st)))
+	}
+	return out
+}
+
+// writeKind: how GenerateFromSQLMap (or the helper of the package it hands the file to) writes a script file:
+// afero.WriteFile / Create and OpenFile with O_TRUNC replace what the file held (WriteTruncate); OpenFile without O_TRUNC
+// keeps the tail of a longer file (WriteKeepTail); with O_APPEND the script is written behind the old content
+// (WriteAppend).  Exactly one writing call must be found, anything else is WriteUnknown.
+func writeKind(fset *token.FileSet, fd *ast.FuncDecl, fns map[string]*ast.FuncDecl, depth int) string {
+	if fd == nil || fd.Body == nil || depth > 2 {
+		return "WriteUnknown"
+	}
+	var found []string
+	ast.Inspect(fd.Body, func(nd ast.Node) bool {
+		c, ok := nd.(*ast.CallExpr)
+		if !ok {
+			return true
+		}
+		ch := selChain(c.Fun)
+		name := ""
+		if len(ch) > 0 {
+			name = ch[len(ch)-1]
+		}
+		switch {
+		case strings.Join(ch, ".") == "afero.WriteFile", strings.Join(ch, ".") == "ioutil.WriteFile", strings.Join(ch, ".") == "os.WriteFile":
+			found = append(found, "WriteTruncate")
+		case name == "Create" && len(ch) == 2:
+			found = append(found, "WriteTruncate")
+		case name == "OpenFile" && len(c.Args) >= 2:
+			flags := dbText(fset, c.Args[len(c.Args)-2])
+			switch {
+			case strings.Contains(flags, "O_APPEND"):
+				found = append(found, "WriteAppend")
+			case strings.Contains(flags, "O_TRUNC"):
+				found = append(found, "WriteTruncate")
+			case strings.Contains(flags, "O_WRONLY") || strings.Contains(flags, "O_RDWR"):
+				found = append(found, "WriteKeepTail")
+			default:
+				found = append(found, "WriteUnknown")
+			}
+		case len(ch) == 1 && fns[ch[0]] != nil && fns[ch[0]] != fd:
+			if k := writeKind(fset, fns[ch[0]], fns, depth+1); k != "WriteUnknown" {
+				found = append(found, k)
+			}
+		}
+		return true
+	})
+	if len(found) != 1 {
+		return "WriteUnknown"
+	}
+	return found[0]
 }
 
 // formats of the v.stringBuilder.WriteString(fmt.Sprintf(<format>, ...)) statements of a block, in order
